@@ -17,6 +17,33 @@ Proof.
   intros p Hin. apply String.eqb_eq. now apply H.
 Qed.
 
+(* The library's exception kinds (`var NAME = CelloEmpty(ARG);`): exception_catch matches by eq and
+   Type objects compare by their name, which is ARG; so every kind must carry its own variable's
+   name and the names must be pairwise distinct.  Decided by computation, like the shapes. *)
+Fixpoint nodupb (l : list string) : bool :=
+  match l with
+  | [] => true
+  | x :: r => negb (existsb (String.eqb x) r) && nodupb r
+  end.
+
+Lemma nodupb_NoDup : forall l, nodupb l = true -> NoDup l.
+Proof.
+  induction l as [|x r IH]; intros H; [constructor|].
+  cbn in H. apply andb_true_iff in H. destruct H as (Hx & Hr). constructor; [|now apply IH].
+  intros Hin. apply negb_true_iff in Hx.
+  assert (existsb (String.eqb x) r = true) by (apply existsb_exists; exists x; split; [exact Hin | apply String.eqb_refl]).
+  congruence.
+Qed.
+
+Lemma kinds_ok_dec : forall l : list (string * string),
+  if forallb (fun p => String.eqb (fst p) (snd p)) l && nodupb (map snd l)
+  then Forall (fun p => fst p = snd p) l /\ NoDup (map snd l) else True.
+Proof.
+  intros l. destruct (forallb _ l && nodupb (map snd l)) eqn:H; [|exact I].
+  apply andb_true_iff in H. destruct H as (H1 & H2). split; [|now apply nodupb_NoDup].
+  rewrite forallb_forall in H1. apply Forall_forall. intros q Hin. apply String.eqb_eq. now apply H1.
+Qed.
+
 Lemma clear_active_generated : clear_active_on_catch = true.
 Proof. reflexivity. Qed.
 
@@ -32,7 +59,9 @@ Proof. intros st; unfold jump_or_die; destruct (bufs st); discriminate. Qed.
 
 Section Refinement.
 Variable max : nat.
-Notation run := (mrun max true).
+Variable tko : bool.      (* whether exception_try keeps e->obj does not matter once the object is
+                             stored after the message has been formatted *)
+Notation run := (mrun max true true tko).
 
 (* What the machine does on [p] from [st], against the structured semantics at the level
    [depth st].  No hypothesis on [active st]: the flag is only read by exception_catch, and
@@ -48,7 +77,7 @@ Definition refines (p : prog) (st : mstate) : Prop :=
 
 Lemma refine : forall p st, depth st + nesting p <= max -> refines p st.
 Proof.
-  induction p as [ | n | p IHp q IHq | k m | b IHb fs h IHh | p IHp ];
+  induction p as [ | n | p IHp q IHq | k m f IHf | b IHb fs h IHh | p IHp ];
     intros st Hbound tr r st' Hrun tr0 r0 c' Href; cbn [nesting] in Hbound.
   - (* PSkip *)
     cbn in Hrun, Href. inversion Hrun; inversion Href; subst. repeat split; auto.
@@ -75,14 +104,24 @@ Proof.
       assert (Hrun' : (t01, r1, s1) = (tr, r, st')).
       { rewrite Hr1 in *. unfold jump_or_die in *. destruct (bufs s1); exact Hrun. }
       inversion Hrun'; inversion Href; subst. repeat split; auto.
-  - (* PThrow *)
-    cbn in Hrun, Href. inversion Hrun; inversion Href; subst. cbn. repeat split; auto.
+  - (* PThrow: the arguments are shown (program f), then the object is stored and raised *)
+    cbn [mrun ref_run] in Hrun, Href.
+    destruct (run f st) as [[t1 r1] s1] eqn:E1.
+    destruct (ref_run (depth st) (msg st) f) as [[t01 r01] c1] eqn:R1.
+    destruct (IHf st Hbound _ _ _ E1 _ _ _ R1) as (-> & Hb1 & Hm1 & Hres1).
+    destruct r01 as [ | k' m'].
+    + destruct Hres1 as (-> & _).
+      inversion Hrun; inversion Href; subst. cbn. repeat split; auto.
+    + destruct Hres1 as (Ho & Hm & Hr1).
+      assert (Hrun' : (t01, r1, s1) = (tr, r, st')).
+      { rewrite Hr1 in *. unfold jump_or_die in *. destruct (bufs s1); exact Hrun. }
+      inversion Hrun'; inversion Href; subst. repeat split; auto.
   - (* PTry *)
     cbn [mrun ref_run] in Hrun, Href.
     unfold exception_try in Hrun.
     assert (Hne : (depth st =? max) = false) by (apply Nat.eqb_neq; lia).
     rewrite Hne in Hrun.
-    set (s0 := MS (obj st) (msg st) (depth st :: bufs st) false) in *.
+    set (s0 := MS (if tko then obj st else None) (msg st) (depth st :: bufs st) false) in *.
     assert (Hd0 : depth s0 = S (depth st)) by reflexivity.
     assert (Hm0 : msg s0 = msg st) by reflexivity.
     destruct (run b s0) as [[t1 r1] s1] eqn:E1.
@@ -128,7 +167,10 @@ End Refinement.
 
 (* ------------------------------------------------------------------ the statements of Properties_C07.v *)
 
-Definition mach := mrun exc_max_depth clear_active_on_catch.
+Lemma obj_after_format_generated : throw_records_obj_after_format = true.
+Proof. reflexivity. Qed.
+
+Definition mach := mrun exc_max_depth clear_active_on_catch throw_records_obj_after_format try_keeps_obj.
 
 Lemma machine_refines_structured : forall p st,
   depth st + nesting p <= exc_max_depth ->
@@ -145,10 +187,10 @@ Lemma machine_refines_structured : forall p st,
       end
   end.
 Proof.
-  intros p st Hb. unfold mach. rewrite clear_active_generated.
-  destruct (mrun exc_max_depth true p st) as [[tr r] st'] eqn:E.
+  intros p st Hb. unfold mach. rewrite clear_active_generated, obj_after_format_generated.
+  destruct (mrun exc_max_depth true true try_keeps_obj p st) as [[tr r] st'] eqn:E.
   destruct (ref_run (depth st) (msg st) p) as [[tr0 r0] c'] eqn:R.
-  destruct (refine exc_max_depth p st Hb _ _ _ E _ _ _ R) as (-> & Hbufs & Hmsg & Hres).
+  destruct (refine exc_max_depth try_keeps_obj p st Hb _ _ _ E _ _ _ R) as (-> & Hbufs & Hmsg & Hres).
   split; [reflexivity|]. split; [exact (depth_bufs _ _ Hbufs)|]. split; [exact Hbufs|]. split; [exact Hmsg|].
   destruct r0 as [|k m]; [exact Hres|].
   destruct Hres as (Ho & Hm & ->). split; [exact Ho|]. split; [exact Hm|].
@@ -180,18 +222,18 @@ Lemma handled_not_seen_outside : forall B fs h st,
   let '(tr, r, st') := mach (PTry B fs h) st in
   tr = fst (fst (ref_run (S (depth st)) (msg st) B)) /\ r = MNormal /\ depth st' = depth st /\ active st' = false.
 Proof.
-  intros B fs h st Hb HN. unfold mach. rewrite clear_active_generated.
+  intros B fs h st Hb HN. unfold mach. rewrite clear_active_generated, obj_after_format_generated.
   cbn [mrun]. unfold exception_try.
   assert (Hne : (depth st =? exc_max_depth) = false) by (apply Nat.eqb_neq; lia).
   rewrite Hne.
-  set (s0 := MS (obj st) (msg st) (depth st :: bufs st) false).
+  set (s0 := MS (if try_keeps_obj then obj st else None) (msg st) (depth st :: bufs st) false).
   assert (Hd0 : depth s0 = S (depth st)) by reflexivity.
   assert (Hm0 : msg s0 = msg st) by reflexivity.
-  destruct (mrun exc_max_depth true B s0) as [[t1 r1] s1] eqn:E1.
+  destruct (mrun exc_max_depth true true try_keeps_obj B s0) as [[t1 r1] s1] eqn:E1.
   rewrite <- Hd0, <- Hm0 in HN |- *.
   destruct (ref_run (depth s0) (msg s0) B) as [[t01 r01] c1] eqn:R1. cbn [snd fst] in *. subst r01.
   assert (Hb0 : depth s0 + nesting B <= exc_max_depth) by (rewrite Hd0; lia).
-  destruct (refine exc_max_depth B s0 Hb0 _ _ _ E1 _ _ _ R1) as (-> & Hb1 & _ & -> & Hact).
+  destruct (refine exc_max_depth try_keeps_obj B s0 Hb0 _ _ _ E1 _ _ _ R1) as (-> & Hb1 & _ & -> & Hact).
   specialize (Hact eq_refl).
   unfold exception_try_end. rewrite Hb1. cbn [bufs s0].
   unfold exception_catch. cbn [active]. rewrite Hact. cbn. auto.
@@ -207,18 +249,18 @@ Qed.
 
 (* D3: the machine of the pinned code (exception_catch leaves [active] set) does not follow
    block structure: the outer handler runs for an exception the inner block handled ... *)
-Definition d3_witness : prog := PTry (PTry (PThrow 0 5) [0] (PTick 1)) [] (PTick 2).
+Definition d3_witness : prog := PTry (PTry (PThrow 0 5 PSkip) [0] (PTick 1)) [] (PTick 2).
 (* ... and with a non-matching outer filter the program dies although nothing is unhandled *)
-Definition d3_witness_dies : prog := PSeq (PTry (PTry (PThrow 0 5) [0] (PTick 1)) [10] (PTick 2)) (PTick 3).
+Definition d3_witness_dies : prog := PSeq (PTry (PTry (PThrow 0 5 PSkip) [0] (PTick 1)) [10] (PTick 2)) (PTick 3).
 
 Lemma unrepaired_refuted :
   exists p, nesting p <= exc_max_depth /\
-    fst (fst (mrun exc_max_depth false p st_init)) <> fst (fst (ref_run 0 0 p)).
+    fst (fst (mrun exc_max_depth false true true p st_init)) <> fst (fst (ref_run 0 0 p)).
 Proof. exists d3_witness. split; [apply Nat.leb_le; vm_compute; reflexivity | vm_compute; discriminate]. Qed.
 
 Lemma unrepaired_refuted_dies :
   exists p, nesting p <= exc_max_depth /\ snd (fst (ref_run 0 0 p)) = RNormal /\
-    snd (fst (mrun exc_max_depth false p st_init)) = MDied (Some 0) 5.
+    snd (fst (mrun exc_max_depth false true true p st_init)) = MDied (Some 0) 5.
 Proof. exists d3_witness_dies. split; [apply Nat.leb_le; vm_compute; reflexivity | split; vm_compute; reflexivity]. Qed.
 
 (* ------------------------------------------------------------------ the structured semantics, read declaratively *)
@@ -244,7 +286,7 @@ Qed.
 
 Lemma ref_run_eval : forall p d c t r c', ref_run d c p = (t, r, c') -> eval d c p t r c'.
 Proof.
-  induction p as [ | n | p IHp q IHq | k m | b IHb fs h IHh | p IHp ]; intros d c t r c' H; cbn [ref_run] in H.
+  induction p as [ | n | p IHp q IHq | k m f IHf | b IHb fs h IHh | p IHp ]; intros d c t r c' H; cbn [ref_run] in H.
   - inversion H; subst. constructor.
   - inversion H; subst. constructor.
   - destruct (ref_run d c p) as [[t1 r1] c1] eqn:R1. apply IHp in R1.
@@ -252,7 +294,8 @@ Proof.
     + destruct (ref_run d c1 q) as [[t2 r2] c2] eqn:R2. apply IHq in R2.
       inversion H; subst. eapply EvSeqNormal; eassumption.
     + inversion H; subst. now apply EvSeqRaised.
-  - inversion H; subst. constructor.
+  - destruct (ref_run d c f) as [[t1 r1] c1] eqn:R1. apply IHf in R1.
+    destruct r1 as [|k' m']; inversion H; subst; [now apply EvThrow | now apply EvThrowEscaped].
   - destruct (ref_run (S d) c b) as [[t1 r1] c1] eqn:R1. apply IHb in R1.
     destruct r1 as [|k m].
     + inversion H; subst. now apply EvTryNormal.
@@ -267,6 +310,8 @@ Lemma eval_ref_run : forall d c p t r c', eval d c p t r c' -> ref_run d c p = (
 Proof.
   induction 1; cbn [ref_run]; try reflexivity.
   - now rewrite IHeval1, IHeval2.
+  - now rewrite IHeval.
+  - now rewrite IHeval.
   - now rewrite IHeval.
   - exact IHeval.
   - now rewrite IHeval.
@@ -464,14 +509,42 @@ Proof. induction fuel as [|f IH]; [reflexivity|]. cbn. exact IH. Qed.
    throw's, or — empty format, m2 = 0 — the one already in the record.) *)
 Lemma bound_object_is_thrown_identity : forall o1 o2 m1 m2 fs,
   accepts fs o2 ->
-  fst (mach (PSeq (PTry (PThrow o1 m1) [] PSkip) (PTry (PThrow o2 m2) fs PSkip)) st_init)
+  fst (mach (PSeq (PTry (PThrow o1 m1 PSkip) [] PSkip) (PTry (PThrow o2 m2 PSkip) fs PSkip)) st_init)
   = ([EHandler o1 (set_msg m1 0) 0; EHandler o2 (set_msg m2 (set_msg m1 0)) 0], MNormal).
 Proof.
   intros o1 o2 m1 m2 fs Hacc. apply matches_spec in Hacc.
-  set (P := PSeq (PTry (PThrow o1 m1) [] PSkip) (PTry (PThrow o2 m2) fs PSkip)).
+  set (P := PSeq (PTry (PThrow o1 m1 PSkip) [] PSkip) (PTry (PThrow o2 m2 PSkip) fs PSkip)).
   assert (Hn : nesting P <= exc_max_depth) by (apply Nat.leb_le; reflexivity).
   pose proof (whole_program P Hn) as H.
   destruct (mach P st_init) as [[tr r] st']. cbn [fst].
   unfold P in H. cbn [ref_run matches app] in H. rewrite Hacc in H. cbn [app] in H.
   destruct H as (-> & _ & ->). reflexivity.
 Qed.
+
+(* ------------------------------------------------------------------ the object is stored after formatting *)
+
+(* Third repaired defect: the pinned exception_throw stored e->obj BEFORE it formatted the message.
+   A Show method of a message argument that throws and handles an exception of its own then left
+   ITS object in the record: the outer handler was bound to the inner object, or — with a filter
+   naming the thrown kind — did not run at all and the program died. *)
+Definition fmt_witness : prog :=
+  PTry (PThrow 0 5 (PTry (PThrow 10 7 PSkip) [] PSkip)) [0] (PTick 1).
+
+Lemma obj_before_format_refuted :
+  nesting fmt_witness <= exc_max_depth /\
+  ref_run 0 0 fmt_witness = ([EHandler 10 7 1; EHandler 0 5 0; ETick 1 0], RNormal, 5) /\
+  fst (mrun exc_max_depth true false true fmt_witness st_init) = ([EHandler 10 7 1], MDied (Some 10) 5).
+Proof. split; [apply Nat.leb_le; vm_compute; reflexivity | split; vm_compute; reflexivity]. Qed.
+
+(* With the object stored first, exception_try must not touch e->obj either (seeded change: it
+   cleared it): a Show method that merely ENTERS a try block wiped the object being raised; a
+   catch-all then bound NULL and was skipped.  With the repaired order the machine refines the
+   structured semantics for either behaviour of exception_try ([refine] is generic in tko). *)
+Definition fmt_witness_quiet : prog :=
+  PTry (PThrow 0 5 (PTry PSkip [] PSkip)) [] (PTick 1).
+
+Lemma try_clearing_obj_refuted_for_old_order :
+  ref_run 0 0 fmt_witness_quiet = ([EHandler 0 5 0; ETick 1 0], RNormal, 5) /\
+  fst (mrun exc_max_depth true false false fmt_witness_quiet st_init) = ([], MNormal) /\
+  fst (mrun exc_max_depth true true false fmt_witness_quiet st_init) = ([EHandler 0 5 0; ETick 1 0], MNormal).
+Proof. repeat split; vm_compute; reflexivity. Qed.
